@@ -1,6 +1,7 @@
 import Gossamer.Base.Proto
 import Gossamer.Lib.ScaleText
 import Gossamer.Model.C12
+import Gossamer.Lib.ScaleMap
 open Gossamer Gossamer.Scale Gossamer.ScaleText
 
 /- line:   d <type> <input-hex>
@@ -37,6 +38,7 @@ def step (line : String) : String :=
                   else if o.req > data.length + 1024 then "bytes-alloc" else "none"
         s!"{model}\tspec={spec}\tkf={kf}"
     | _, _ => "bad-op"
+  | ["mdec", kts, vts, h, dst] => ScaleMap.stepDec kts vts h dst
   | _ => "bad-op"
 
 def main : IO Unit := runDriver step
